@@ -549,4 +549,273 @@ theorem law_dur_iso (us : Int) (h : us.natAbs < maxDelta) :
       simp only [hmz, Bool.false_eq_true, ↓reduceIte, List.append_nil]
       exact this
 
+
+/-! ### numbers (token instance), UUID -/
+
+theorem natStr_head (n : Nat) : ∃ d r, natStr n = d :: r ∧ d.isDigit = true := by
+  cases h : natStr n with
+  | nil => exact absurd h (natStr_ne_nil _)
+  | cons d r => exact ⟨d, r, rfl, natStr_isDigit (by rw [h]; simp)⟩
+
+theorem splitNeg_minus (r : Str) : splitNeg ('-' :: r) = (true, r) := rfl
+
+theorem splitNeg_digit (d : Char) (r : Str) (hd : d.isDigit = true) : splitNeg (d :: r) = (false, d :: r) := by
+  have : d ≠ '-' := by intro e; subst e; simp at hd
+  unfold splitNeg
+  split
+  · rename_i heq; injection heq with h1 _; exact absurd h1 this
+  · rfl
+
+theorem pNat_natStr (n : Nat) : pNat (natStr n) = some n := by
+  have h1 : (natStr n).isEmpty = false := by
+    cases h : natStr n with
+    | nil => exact absurd h (natStr_ne_nil _)
+    | cons _ _ => rfl
+  simp [pNat, h1, all_digit_natStr, ofDigits_natStr]
+
+theorem pInt_intStr (i : Int) : pInt (intStr i) = some i := by
+  by_cases hneg : i < 0
+  · have e : intStr i = '-' :: natStr i.natAbs := by simp [intStr, hneg]
+    rw [e]
+    unfold pInt
+    rw [splitNeg_minus]
+    simp only [pNat_natStr, Option.map_some, ↓reduceIte]
+    have : -(i.natAbs : Int) = i := by omega
+    simpa using this
+  · have e : intStr i = natStr i.toNat := by simp [intStr, hneg]
+    rw [e]
+    obtain ⟨d, r, hdr, hd⟩ := natStr_head i.toNat
+    have := pNat_natStr i.toNat
+    rw [hdr] at this ⊢
+    unfold pInt
+    rw [splitNeg_digit d r hd]
+    simp only [this, Option.map_some, Bool.false_eq_true, ↓reduceIte]
+    have : (i.toNat : Int) = i := by omega
+    simpa using this
+
+theorem law_dec_float (neg : Bool) (c : Nat) (e : Int) :
+    (floatOfDec (.fin neg c e)).isFinite = true
+    ∧ (floatOfDec (.fin neg c e)).isZero = (c == 0)
+    ∧ (c ≠ 0 → (decOfFloat (floatOfDec (.fin neg c e))).canon = (Dec.fin neg c e).canon) := by
+  refine ⟨rfl, ?_, fun _ => rfl⟩
+  cases c <;> simp [floatOfDec, F.isZero]
+
+theorem digits_ne_lit (n : Nat) (r : Str) (c : Char) (l : Str) (hc : c.isDigit = false) : natStr n ++ r ≠ c :: l := by
+  obtain ⟨d, r', hdr, hd⟩ := natStr_head n
+  rw [hdr]
+  intro h
+  injection h with h1 _
+  subst h1
+  simp [hd] at hc
+
+theorem law_dec_str (d : Dec) : decOfStr (decStr d) = some d := by
+  cases d with
+  | nan => decide
+  | inf neg => cases neg <;> decide
+  | fin neg c e =>
+    obtain ⟨d0, r0, hdr, hd0⟩ := natStr_head c
+    have hbody : ∀ neg', splitNeg (decStr (.fin neg c e)) = (neg', natStr c ++ 'E' :: intStr e) → 
+        decOfStr (decStr (.fin neg c e)) = some (.fin neg' c e) := by
+      intro neg' hs
+      have h1 : natStr c ++ 'E' :: intStr e ≠ "Infinity".toList := digits_ne_lit c _ 'I' _ (by decide)
+      have h2 : decStr (.fin neg c e) ≠ "NaN".toList := by
+        cases neg
+        · simpa [decStr] using digits_ne_lit c _ 'N' _ (by decide)
+        · simp [decStr]
+      obtain ⟨t1, t2⟩ := tw_digits (natStr c) 'E' (intStr e) (all_digit_natStr c) (by decide)
+      have hemp : (natStr c).isEmpty = false := by rw [hdr]; rfl
+      unfold decOfStr
+      simp only [hs, h1, h2, ↓reduceIte, t1, t2, hemp, Bool.false_eq_true, pInt_intStr, Option.map_some, ofDigits_natStr]
+    cases neg
+    · apply hbody false
+      simp only [decStr, Bool.false_eq_true, ↓reduceIte, List.nil_append, List.append_assoc]
+      rw [hdr]; exact splitNeg_digit d0 _ hd0
+    · apply hbody true
+      simp only [decStr, ↓reduceIte, List.cons_append, List.nil_append, List.append_assoc]
+      rfl
+
+
+theorem digit_not_space {c : Char} (h : c.isDigit = true) : isSpace c = false :=
+  isoChar_not_space (isoChar_of_digit h)
+
+theorem natStr_no_space (n : Nat) : (natStr n).all (fun c => !isSpace c) = true := by
+  simp only [List.all_eq_true]; intro c hc; simp [digit_not_space (natStr_isDigit hc)]
+
+theorem intStr_no_space (i : Int) : (intStr i).all (fun c => !isSpace c) = true := by
+  unfold intStr; split
+  · simp only [List.all_cons, natStr_no_space, Bool.and_true]; decide
+  · exact natStr_no_space _
+
+theorem law_dec_str_clean (d : Dec) : strip (decStr d) = decStr d ∧ decStr d ≠ [] := by
+  have hns : (decStr d).all (fun c => !isSpace c) = true := by
+    cases d with
+    | nan => decide
+    | inf neg => cases neg <;> decide
+    | fin neg c e =>
+      have hE : (!isSpace 'E') = true := by decide
+      have hM : (!isSpace '-') = true := by decide
+      cases neg <;> simp only [decStr, List.all_append, List.all_cons, List.all_nil, natStr_no_space, intStr_no_space,
+        hE, hM, Bool.and_self, Bool.false_eq_true, ↓reduceIte]
+  refine ⟨strip_of_no_space (fun c hc => by simpa using List.all_eq_true.mp hns c hc), ?_⟩
+  cases d with
+  | nan => decide
+  | inf neg => cases neg <;> decide
+  | fin neg c e => cases neg <;> simp [decStr, natStr_ne_nil]
+
+theorem law_dec_int (i : Int) : decOfStr (intStr i) = some (.fin (decide (i < 0)) i.natAbs 0) := by
+  by_cases hneg : i < 0
+  · have e : intStr i = '-' :: natStr i.natAbs := by simp [intStr, hneg]
+    obtain ⟨t1, t2⟩ := tw_digits_nil (natStr i.natAbs) (all_digit_natStr _)
+    obtain ⟨d0, r0, hdr, hd0⟩ := natStr_head i.natAbs
+    have h1 : natStr i.natAbs ≠ "Infinity".toList := by
+      have := digits_ne_lit i.natAbs [] 'I' "nfinity".toList (by decide)
+      simpa using this
+    have h2 : '-' :: natStr i.natAbs ≠ "NaN".toList := by
+      intro h; injection h with h _; exact absurd h (by decide)
+    have hemp : (natStr i.natAbs).isEmpty = false := by rw [hdr]; rfl
+    rw [e]
+    unfold decOfStr
+    simp only [splitNeg_minus, h1, h2, ↓reduceIte, t1, t2, hemp, Bool.false_eq_true, ofDigits_natStr, hneg, decide_true]
+  · have e : intStr i = natStr i.toNat := by simp [intStr, hneg]
+    obtain ⟨t1, t2⟩ := tw_digits_nil (natStr i.toNat) (all_digit_natStr _)
+    obtain ⟨d0, r0, hdr, hd0⟩ := natStr_head i.toNat
+    have h1 : natStr i.toNat ≠ "Infinity".toList := by
+      have := digits_ne_lit i.toNat [] 'I' "nfinity".toList (by decide)
+      simpa using this
+    have h2 : natStr i.toNat ≠ "NaN".toList := by
+      have := digits_ne_lit i.toNat [] 'N' "aN".toList (by decide)
+      simpa using this
+    have hemp : (natStr i.toNat).isEmpty = false := by rw [hdr]; rfl
+    have hs : splitNeg (natStr i.toNat) = (false, natStr i.toNat) := by rw [hdr]; exact splitNeg_digit d0 r0 hd0
+    have hn : i.natAbs = i.toNat := by omega
+    rw [e, hn]
+    unfold decOfStr
+    simp only [hs, h1, h2, ↓reduceIte, t1, t2, hemp, Bool.false_eq_true, ofDigits_natStr, hneg, decide_false]
+
+theorem law_uuid_rt (n : Nat) : uuidOfStr (uuidStr n) = some n := pNat_natStr n
+
+
+theorem law_utf8_rt (b : List UInt8) (hv : validUtf8 b = true) : utf8Encode (utf8Decode b) = b := by
+  have h : (ByteArray.mk b.toArray).IsValidUTF8 := ByteArray.validateUTF8_eq_true_iff.mp hv
+  unfold utf8Decode utf8Encode
+  simp only [h, ↓reduceDIte, String.ofList_toList, String.toUTF8_eq_toByteArray, String.fromUTF8]
+
+
+/-! ### the prefix code for JSON trees -/
+
+theorem unserStr_ser (s r : Str) : unserStr (serStr s ++ r) = some (s, r) := by
+  induction s with
+  | nil => simp [serStr, unserStr]
+  | cons c cs ih =>
+    have : serStr (c :: cs) ++ r = 'c' :: c :: (serStr cs ++ r) := by simp [serStr]
+    rw [this]
+    simp only [unserStr, ih, Option.map_some]
+
+mutual
+def need : Js → Nat
+  | .arr xs => 1 + needList xs
+  | .obj kvs => 1 + needKVs kvs
+  | _ => 1
+def needList : List Js → Nat
+  | [] => 1
+  | x :: xs => 1 + max (need x) (needList xs)
+def needKVs : List (Str × Js) → Nat
+  | [] => 1
+  | (_, x) :: r => 1 + max (need x) (needKVs r)
+end
+
+mutual
+theorem unser_ser : (j : Js) → (fuel : Nat) → (rest : Str) → need j ≤ fuel →
+    unser fuel (ser j ++ rest) = some (j, rest)
+  | .null, fuel + 1, rest, _ => by simp [ser, unser]
+  | .bool b, fuel + 1, rest, _ => by cases b <;> simp [ser, unser]
+  | .int i, fuel + 1, rest, _ => by
+    simp [ser, unser, unserStr_ser, pInt_intStr]
+  | .float (.fin neg m e), fuel + 1, rest, _ => by
+    cases neg <;> simp [ser, unser, List.append_assoc, unserStr_ser, pNat_natStr, pInt_intStr]
+  | .float (.inf neg), fuel + 1, rest, _ => by cases neg <;> simp [ser, unser]
+  | .float .nan, fuel + 1, rest, _ => by simp [ser, unser]
+  | .str s, fuel + 1, rest, _ => by simp [ser, unser, unserStr_ser]
+  | .arr xs, fuel + 1, rest, h => by
+    have := unserList_ser xs fuel rest (by simp [need] at h; omega)
+    simp [ser, unser, this]
+  | .obj kvs, fuel + 1, rest, h => by
+    have := unserKVs_ser kvs fuel rest (by simp [need] at h; omega)
+    simp [ser, unser, this]
+  | j, 0, _, h => by cases j <;> simp [need] at h
+theorem unserList_ser : (xs : List Js) → (fuel : Nat) → (rest : Str) → needList xs ≤ fuel →
+    unserList fuel (serList xs ++ rest) = some (xs, rest)
+  | [], fuel + 1, rest, _ => by simp [serList, unserList]
+  | x :: xs, fuel + 1, rest, h => by
+    simp only [needList] at h
+    have h1 := unser_ser x fuel (serList xs ++ rest) (by omega)
+    have h2 := unserList_ser xs fuel rest (by omega)
+    simp [serList, unserList, List.append_assoc, h1, h2]
+  | xs, 0, _, h => by cases xs <;> simp [needList] at h
+theorem unserKVs_ser : (kvs : List (Str × Js)) → (fuel : Nat) → (rest : Str) → needKVs kvs ≤ fuel →
+    unserKVs fuel (serKVs kvs ++ rest) = some (kvs, rest)
+  | [], fuel + 1, rest, _ => by simp [serKVs, unserKVs]
+  | (k, x) :: kvs, fuel + 1, rest, h => by
+    simp only [needKVs] at h
+    have h1 := unser_ser x fuel (serKVs kvs ++ rest) (by omega)
+    have h2 := unserKVs_ser kvs fuel rest (by omega)
+    simp [serKVs, unserKVs, List.append_assoc, unserStr_ser, h1, h2]
+  | kvs, 0, _, h => by
+    cases kvs with
+    | nil => simp [needKVs] at h
+    | cons kv r => obtain ⟨k, x⟩ := kv; simp [needKVs] at h
+end
+
+mutual
+theorem need_le : (j : Js) → need j ≤ (ser j).length
+  | .null => by simp [need, ser]
+  | .bool _ => by simp [need, ser]
+  | .int _ => by simp [need, ser]
+  | .float (.fin _ _ _) => by simp [need, ser]
+  | .float (.inf _) => by simp [need, ser]
+  | .float .nan => by simp [need, ser]
+  | .str _ => by simp [need, ser]
+  | .arr xs => by have := needList_le xs; simp [need, ser]; omega
+  | .obj kvs => by have := needKVs_le kvs; simp [need, ser]; omega
+theorem needList_le : (xs : List Js) → needList xs ≤ (serList xs).length
+  | [] => by simp [needList, serList]
+  | x :: xs => by
+    have := need_le x; have := needList_le xs
+    simp [needList, serList]; omega
+theorem needKVs_le : (kvs : List (Str × Js)) → needKVs kvs ≤ (serKVs kvs).length
+  | [] => by simp [needKVs, serKVs]
+  | (k, x) :: kvs => by
+    have := need_le x; have := needKVs_le kvs
+    simp [needKVs, serKVs]; omega
+end
+
+theorem law_json_rt (j : Js) : jsonLoads (jsonDumps j) = some j := by
+  have h := unser_ser j ((ser j).length + 1) [] (by have := need_le j; omega)
+  rw [List.append_nil] at h
+  simp [jsonLoads, jsonDumps, h]
+
 end Utv.C14.P0
+
+namespace Utv.C14
+
+/-- **Non-vacuity**: the concrete builtins `P0` satisfy every law the theorems assume. -/
+theorem primLaws_P0 : PrimLaws P0 where
+  date_fmt := P0.law_date_fmt
+  naive_fmt := P0.law_naive_fmt
+  naive_other := P0.law_naive_other
+  aware_plain := P0.law_aware_plain
+  aware_fmt := P0.law_aware_fmt
+  aware_other := P0.law_aware_other
+  time_iso := P0.law_time_iso
+  dur_float := P0.law_dur_float
+  dur_re0 := P0.law_dur_re0
+  dur_iso := P0.law_dur_iso
+  dec_float := fun neg c e _ _ _ => P0.law_dec_float neg c e
+  dec_str := P0.law_dec_str
+  dec_str_clean := P0.law_dec_str_clean
+  dec_int := P0.law_dec_int
+  uuid_rt := fun n _ => P0.law_uuid_rt n
+  utf8_rt := P0.law_utf8_rt
+  json_rt := fun j _ => P0.law_json_rt j
+
+end Utv.C14
